@@ -26,6 +26,19 @@ def read_chunks(cfg, chunks):
     return r, out
 
 
+def read_chunks_twin(cfg, chunks, twin):
+    """reader 1 gets `chunks`; after its first call a second reader object of the same configuration reads `twin`
+    (same schedule as spec.concrete.hdlc_run_twin)"""
+    r1, r2 = reader(cfg), reader(cfg)
+    out = []
+    for k, ch in enumerate(chunks):
+        out += r1.read(ch)
+        if k == 0:
+            for t in twin:
+                r2.read(t)
+    return r1, out
+
+
 def sig(frames):
     """observables of returned frames: [as_bytes, is_good_ffc, is_expected_length, payload] (same shape as concrete.hdlc_obs)"""
     return [[f.as_bytes, f.is_good_ffc, f.is_expected_length, f.payload] for f in frames]
